@@ -238,7 +238,7 @@ def main(chk, args):
     build = common.build_and_audit("C05")
     if not build.driver_ok:
         chk.finish(build, RULE)
-    n = 5 if chk.tier == "quick" else 60
+    n = chk.scale(5 if chk.tier == "quick" else 60)
     for _ in range(n):
         run_case(chk, gen_case(chk.rng))
     lc = common.leanchecker("C05") if chk.tier == "thorough" else None
